@@ -20,14 +20,14 @@ PROPS = {
             "consumers stop at the first Err (the iterator is not fused after an error)",
         ],
     ),
-    'C02': dict(rule=FAMILY_RULE, builds=[('rel', 1.0, 2.0)], must_observe=['events_checked'],
+    'C02': dict(rule=FAMILY_RULE, builds=[('rel', 1.0, 1.0)], must_observe=['events_checked'],
                 assumptions=COMMON_ASSUME),
     'C10': dict(rule=FAMILY_RULE, builds=[('rel', 1.0, 1.0)], must_observe=['backend_runs', 'agreements'],
                 assumptions=COMMON_ASSUME + ["ChunkInput<N> models BufferedInput at other capacities and implements only the required trait methods"]),
     'C12': dict(rule=FAMILY_RULE, builds=[('rel', 1.0, 1.0), ('chk', 0.35, 1.0)], must_observe=['spans_checked', 'plain_spans_checked', 'quoted_spans_checked', 'marked_nodes_checked'],
                 assumptions=COMMON_ASSUME + ["positions at end of input are exempt from the line/column recount (the statement covers positions before the end)",
                                              "plain scalars equal to '~' are exempt from the span-text rule (synthesized for omitted nodes)"]),
-    'C14': dict(rule=FAMILY_RULE + "; only CR-free inputs containing at least one line break count as non-trivial", builds=[('rel', 1.0, 2.0)],
+    'C14': dict(rule=FAMILY_RULE + "; only CR-free inputs containing at least one line break count as non-trivial", builds=[('rel', 1.0, 1.0)],
                 must_observe=['comparisons', 'inputs_with_breaks'], assumptions=COMMON_ASSUME),
     'C17': dict(rule=FAMILY_RULE, builds=[('rel', 1.0, 1.0)], must_observe=['histories', 'push_pull_comparisons', 'single_doc_call_sequences', 'inputs_with_all_histories', 'next_then_load_histories'],
                 assumptions=COMMON_ASSUME + ["a history ends at the first Err returned by peek or next (the statement lets the consumer stop there)"]),
@@ -35,14 +35,14 @@ PROPS = {
         rule=("streams rendered from random abstract node trees by the spec-derived renderer under random legal layout choices "
               "(constructs exercised are counted per construct_* key), plus the 308 valid yaml-test-suite cases and their "
               "layout-preserving variants; non-trivial = the stream contains at least one collection; distinct = distinct stream texts"),
-        builds=[('rel', 1.0, 6.0)], must_observe=['streams_matching_model', 'corpus_variants_matching', 'construct_block-map', 'construct_flow-seq'],
+        builds=[('rel', 1.0, 1.0)], must_observe=['streams_matching_model', 'corpus_variants_matching', 'construct_block-map', 'construct_flow-seq'],
         assumptions=COMMON_ASSUME + ["the renderer emits only layouts that YAML 1.2.2 makes unconditionally legal (DESIGN.md Appendix A)",
                                      "DocumentStart's explicit flag, spans and absolute anchor numbers are not compared"]),
     'C06': dict(
         rule=("a well-formed rendered stream (accepted by the parser) damaged by one of 14 operators placed with the renderer's marks so "
               "that the result is ill-formed by construction, plus the 94 yaml-test-suite error cases; every case is non-trivial; "
               "distinct = distinct (damaged text, operator)"),
-        builds=[('rel', 1.0, 6.0)], must_observe=['rejected_as_required', 'corpus_error_cases'] + ['applied_' + o for o in [
+        builds=[('rel', 1.0, 1.0)], must_observe=['rejected_as_required', 'corpus_error_cases'] + ['applied_' + o for o in [
             'cut-inside-open-construct', 'swap-closing-bracket', 'tab-as-indentation', 'dedent-between-levels', 'flow-continued-too-shallow',
             'quoted-key-over-two-lines', 'implicit-key-longer-than-1024', 'second-root-node', 'bad-escape', 'alias-without-anchor',
             'undeclared-tag-handle', 'repeated-yaml-directive', 'directive-without-document', 'content-after-document-end']],
@@ -52,21 +52,21 @@ PROPS = {
               "random longer ones) x {plain, single-quoted, double-quoted} x 9 syntactic contexts x random legal presentations (escape vs "
               "literal per character, line folding, continuation indentation, escaped breaks); the presentation is generated from the target; "
               "non-trivial = non-empty target; distinct = distinct (document text, style)"),
-        builds=[('rel', 1.0, 6.0)],
+        builds=[('rel', 1.0, 1.0)],
         must_observe=['presentations_matching', 'style_plain', 'style_single', 'style_double', 'multi_line_presentations', 'escaped_line_breaks'],
         assumptions=COMMON_ASSUME + ["each rendering is cross-checked with an independent fold/unescape reference before it is used (oracle self-test); mismatches are counted, not reported as violations"]),
     'C05': dict(
         rule=("line lists (exhaustively all lists of <= 3 lines over 6 line kinds; random lists of <= 12 lines over 12 kinds) x {literal, folded} x "
               "{strip, clip, keep} x {auto, explicit} indentation x 7 parent contexts x 5 end-of-input shapes; reference value from YAML 1.2.2 "
               "section 8.1; non-trivial = at least one non-empty line; distinct = distinct (document text, style)"),
-        builds=[('rel', 1.0, 6.0)],
+        builds=[('rel', 1.0, 1.0)],
         must_observe=['block_scalars_matching', 'chomp_strip', 'chomp_clip', 'chomp_keep', 'explicit_indicator', 'auto_detected', 'eof_no-final-newline', 'content_indent_beyond_buffer'],
         assumptions=COMMON_ASSUME + ["a content-less scalar is empty under strip and clip (YAML 1.2.2 example 8.6)", "at the top level an explicit indentation indicator is read as counting from column 0 (the libyaml / PyYAML reading, and the literal reading of the statement)"]),
     'C07': dict(
         rule=("inputs from the C01 generators (exhaustive small scope, soups, line soups, corpus mutants), model-rendered streams, the yaml-test-suite "
               "documents and alias/duplicate-key/tag-mismatch templates and their mutants; a tee receiver logs the very events the loader was given and an "
               "independent fold of that log is compared with the loaded documents; non-trivial = accepted input with at least one collection; distinct = distinct input texts"),
-        builds=[('rel', 1.0, 5.0)],
+        builds=[('rel', 1.0, 1.0)],
         must_observe=['accepted_inputs', 'rejected_inputs', 'documents_compared', 'h4_events', 'documents_with_aliases', 'documents_with_duplicate_keys'],
         assumptions=COMMON_ASSUME + ["scalar resolution uses the library's own value_from_cow_and_metadata (resolution is C08's subject)",
                                      "for a repeated key the position of either its first or its last occurrence is accepted"]),
@@ -80,7 +80,7 @@ PROPS = {
               "word list (all-caps words, boundary integers in all radices, look-alikes), random spellings and single-edit mutants; x {untagged, 4 core tags, "
               "!!str, other yaml.org tags, foreign tags} x 5 styles, and through real documents in the four node types; oracle = hand-written recognisers for the "
               "YAML 1.2.2 section 10.3.2 regular expressions; non-trivial = the text is a literal of some type or one deletion away from one; distinct = distinct texts"),
-        builds=[('rel', 1.0, 6.0)],
+        builds=[('rel', 1.0, 1.0)],
         must_observe=['untagged_readings', 'tagged_readings', 'styled_readings', 'borrowed_owned_comparisons', 'document_loads', 'read_as_int', 'read_as_float', 'read_as_bool', 'read_as_null', 'read_as_string'],
         assumptions=COMMON_ASSUME + ["completeness is asserted only for the set the statement names (JSON literals, decimal/0x/0o integers within 64 bits, decimal and exponent floats, .inf/.nan spellings)",
                                      "the value of a decimal float literal is taken from f64::from_str on texts already recognised by the hand-written recogniser"]),
@@ -89,13 +89,13 @@ PROPS = {
               "exhaustively up to length L over a 20-symbol alphabet in 4 positions (root, sequence item, mapping key, mapping value), a list of type-like "
               "words and special characters, random Unicode and multi-line strings, boundary integers and floats; x {compact on/off} x {multiline_strings on/off}; "
               "non-trivial = the tree needs a quoting / formatting decision (not only bare safe words); distinct = distinct trees"),
-        builds=[('rel', 1.0, 2.0)], must_observe=['dumps', 'round_trips_ok', 'deep_trees'],
+        builds=[('rel', 1.0, 1.0)], must_observe=['dumps', 'round_trips_ok', 'deep_trees'],
         assumptions=COMMON_ASSUME + ["Representation, Alias and BadValue nodes are outside the statement's domain and are not generated", "float equality treats NaN as equal to NaN (as the library's own Eq does)"]),
     'C13': dict(
         rule=("random JSON values (nesting mostly <= 6, some 40..200; unique keys; hostile strings as keys and values; numbers in all JSON spellings incl. "
               "19-20 digit integers) serialised compact, pretty-printed (2/4 spaces, tabs) or with random insignificant whitespace (space, tab, LF, CR) around "
               "every token; the generating value is the oracle; non-trivial = the value has at least one container; distinct = distinct JSON texts"),
-        builds=[('rel', 1.0, 3.0)], must_observe=['json_texts_matching', 'style_compact', 'style_pretty-tab', 'style_random-ws', 'deeply_nested_values'],
+        builds=[('rel', 1.0, 1.0)], must_observe=['json_texts_matching', 'style_compact', 'style_pretty-tab', 'style_random-ws', 'deeply_nested_values'],
         assumptions=COMMON_ASSUME + ["\\u escapes are generated only for non-surrogate code points; astral characters are written raw", "integers beyond 64 bits are expected as floats of the same value"]),
     'C20': dict(
         rule=("constructed (borrowed and owned strings) and loaded mappings with string, integer, float, null, boolean and collection keys, including non-string keys "
@@ -107,14 +107,14 @@ PROPS = {
         rule=("pairs and chains (up to 4) of streams that are accepted alone (model-rendered streams, yaml-test-suite documents, hand-written state-heavy streams, "
               "accepted soups), joined by a document end marker line; all ordered pairs of the hand-written list are enumerated; the H3 hook reports the scanner "
               "configuration at every document marker; non-trivial = at least 2 parts and one collection; distinct = distinct joined texts"),
-        builds=[('rel', 1.0, 6.0)], must_observe=['concatenations', 'documents_compared', 'loads_compared', 'h3_events'],
+        builds=[('rel', 1.0, 1.0)], must_observe=['concatenations', 'documents_compared', 'loads_compared', 'h3_events'],
         assumptions=COMMON_ASSUME + ["parts that are rejected alone, do not end with a line break or contain NUL (the end-of-input sentinel) are skipped, not asserted"]),
     'C16': dict(
         rule=("document sequences with 0-3 %TAG lines over the handles ! !! !e! !a-b! !x1! and local/global prefixes (with %-escapes), optional %YAML / reserved "
               "directives in random order, tags of every spelling (named, secondary, local, verbatim, non-specific; suffixes with 1-4 byte %-escapes and URI "
               "punctuation) on scalars, collections and empty nodes, 1-3 documents, keep_tags on/off, and injected faults (undeclared handle, duplicate handle, "
               "handle declared only in an earlier document); model = the property's own sentence; non-trivial = at least one tag; distinct = distinct (text, keep_tags)"),
-        builds=[('rel', 1.0, 5.0)],
+        builds=[('rel', 1.0, 1.0)],
         must_observe=['tags_resolved_as_modelled', 'rejected_as_required', 'keep_tags_on', 'keep_tags_off', 'injected_UndeclaredHandle', 'injected_DuplicateDirective', 'injected_DeclaredInEarlierDocument'],
         assumptions=COMMON_ASSUME + ["tags are compared as prefix+suffix concatenation"]),
     'C18': dict(
@@ -122,7 +122,7 @@ PROPS = {
               "BOM) x 6 encodings x 4 traps, compared with loading the text directly; all byte strings of length <= L over {00,0A,20,2D,41,80,C3,E4,FE,FF} x 4 traps; "
               "random, truncated and garbled encodings; every decode runs under the H1 progress monitor; non-trivial = non-ASCII / non-UTF-8-clean / UTF-16 input; "
               "distinct = distinct byte strings or texts"),
-        builds=[('rel', 1.0, 4.0)],
+        builds=[('rel', 1.0, 1.0)],
         must_observe=['decodes', 'h1_events', 'decodes_equal_to_direct_load', 'wellformed_inputs', 'malformed_inputs', 'encoding_utf-16le', 'encoding_utf-16be+bom'],
         assumptions=COMMON_ASSUME + ["which encoding applies to a byte string is taken from the documented detection rule (BOM, else NUL pattern of the first two bytes, else UTF-8)",
                                      "a decode-loop iteration that neither consumes input nor grows the output is reported by the H1 hook and aborted"]),
@@ -175,7 +175,12 @@ PROPS['C01']['builds'] = [('rel', 5.0, 5.0), ('chk', 1.0, 2.0)]
 PROPS['C12']['builds'] = [('rel', 5.0, 5.0), ('chk', 1.0, 2.0)]
 for k in ['C03', 'C04', 'C05', 'C06', 'C07', 'C08', 'C13', 'C15', 'C16', 'C18', 'C19']:
     PROPS[k]['builds'] = [('rel', 4.0, 4.0)]
-PROPS['C09']['builds'] = [('rel', 3.0, 2.5)]
+PROPS['C09']['builds'] = [('rel', 3.0, 5.0)]
+# third session: the thorough tier of the checks that used to finish within a minute runs 2-3x more random cases
+for k, t in {'C03': 12.0, 'C04': 12.0, 'C05': 12.0, 'C06': 12.0, 'C08': 12.0, 'C15': 12.0, 'C07': 10.0, 'C16': 10.0, 'C13': 8.0, 'C18': 8.0, 'C19': 6.0}.items():
+    PROPS[k]['builds'] = [('rel', 4.0, t)]
+for k in ['C02', 'C14']:
+    PROPS[k]['builds'] = [('rel', 5.0, 8.0)]
 PROPS['C20']['builds'] = [('rel', 3.0, 2.5)]
 
 # supplementary Miri pass (thorough tier): scale of the quick workload that is run under the interpreter
@@ -183,7 +188,7 @@ for k, sc in {'C01': 0.002, 'C10': 0.002, 'C18': 0.01, 'C19': 0.003, 'C20': 0.00
     PROPS[k]['miri_scale'] = sc
 
 # supplementary AddressSanitizer pass (thorough tier): scale of the quick workload run under ASan (nightly, ~4x slower)
-for k, sc in {'C01': 0.5, 'C07': 0.5, 'C09': 0.5, 'C10': 0.5, 'C17': 0.5, 'C18': 1.0, 'C19': 0.5, 'C20': 0.5}.items():
+for k, sc in {'C01': 2.0, 'C07': 2.0, 'C09': 1.5, 'C10': 2.0, 'C17': 2.0, 'C18': 4.0, 'C19': 2.0, 'C20': 1.5}.items():
     PROPS[k]['asan_scale'] = sc
 
 # informative line-coverage report in the thorough evidence
